@@ -30,6 +30,12 @@ KNOWN_CLASSES = {
     "cq-panic:arity": "C19-abort-export-qasm-arity",
     "oq-panic:measure-all-len": "C19-abort-export-qasm-measure-all-len",
     "cq-panic:cond-control-ge-nq": "C19-abort-export-cqasm-cond-control-ge-nq",
+    "exec-panic:bad-composite": "C18-composite-unvalidated-subgates",
+    "reps-diverge:bad-composite": "C18-composite-unvalidated-subgates",
+    "silently-accepted:bad-composite": "C18-composite-unvalidated-subgates",
+    "oq-panic:bad-composite": "C18-composite-unvalidated-subgates",
+    "cq-panic:bad-composite": "C18-composite-unvalidated-subgates",
+    "latex-panic:bad-composite": "C13-composite-subbit-panic",
     "latex-panic:ctrl-between-targets": "C13-ctrl-between-targets-panic",
     "latex-panic:resetall-no-qubits": "C13-resetall-zero-qubits-panic",
     "latex-panic:empty-barrier": "C18-latex-empty-barrier-panic",
